@@ -148,15 +148,18 @@ Proof. vm_compute. repeat split. Qed.
 Definition w_l := fst (run (init_world (mkcfg 1500 65536 64 64 1 3 5) false 2) [EListen 0 1 3 80]).
 Definition syn1 := mkseg 49152 80 500 0 true false false false false 65535 [].
 Definition syn2 := mkseg 49153 80 900 0 true false false false false 65535 [].
+Definition dummy_k := new_kernel (mkcfg 0 0 0 0 0 0 0) [].
+Definition k0_ := nth 0 (hosts w_l) dummy_k.
+Definition k1_ := nth 1 (hosts w_l) dummy_k.
 Example c13_nonvacuous :
-  exists k0 k1, nth_error (hosts w_l) 0 = Some k0 /\ nth_error (hosts w_l) 1 = Some k1 /\
   (* host 0 has no listener: refused *)
-  find_listener k0 (mkip false 2, 80) = None /\ outb (tcp_deliver k0 (mkip false 3) (mkip false 2) syn1) <> [] /\
+  find_listener k0_ (mkip false 2, 80) = None /\
+  len (outb (tcp_deliver k0_ (mkip false 3) (mkip false 2) syn1)) = 1 /\
   (* host 1 listens with backlog 1: first SYN accepted, second dropped *)
-  table_counts (tcp_deliver k1 (mkip false 2) (mkip false 3) syn1) = [2; 1; 2; 1] /\
-  tcp_deliver (tcp_deliver k1 (mkip false 2) (mkip false 3) syn1) (mkip false 2) (mkip false 3) syn2 =
-  tcp_deliver k1 (mkip false 2) (mkip false 3) syn1.
-Proof. eexists. eexists. vm_compute. repeat split; discriminate. Qed.
+  table_counts (tcp_deliver k1_ (mkip false 2) (mkip false 3) syn1) = [2; 1; 2; 1] /\
+  tcp_deliver (tcp_deliver k1_ (mkip false 2) (mkip false 3) syn1) (mkip false 2) (mkip false 3) syn2 =
+  tcp_deliver k1_ (mkip false 2) (mkip false 3) syn1.
+Proof. vm_compute. repeat split. Qed.
 
 Check c13_index_coherent : forall k, kreach k ->
   NoDup (keys k) /\
